@@ -80,7 +80,9 @@ OutViol(e, o, pre, fin, ms, rq, synws, k) ==
       s4 == ~isData \/ o.seq <= Max(Max(ms, k.mar), 1)
       s5 == /\ (o.fin => (closedAt[e] # -1 /\ right = closedAt[e] + 1))
             /\ ((isData /\ closedAt[e] # -1) => (right <= closedAt[e] + 1 \/ (o.len = 1 /\ right <= k.mar)))
-      s6 == ~o.syn \/ o.rst \/ o.win = Min(RxCap(e) - rq, 65535)
+      \* (a device with a burst limit has the interface clamp the window field to burst * (MTU - IP and TCP headers))
+      s6 == ~o.syn \/ o.rst \/ o.win = Min(Min(RxCap(e) - rq, 65535), IF "burst" \in DOMAIN cfg[e + 1] /\ cfg[e + 1].burst >= 0
+                                                                        THEN cfg[e + 1].burst * (Mtu(e) - (o.iplen - o.len)) ELSE 65535)
       k2 == o.cs /\ o.wf
       P(r, ok, x) == IF ok THEN <<>> ELSE << <<l, r, e>> \o x >>
   IN IF o.norel THEN P("K2", k2, <<o.seq>>)      \* stateless reply (RST from a closed port): only well-formedness
